@@ -469,7 +469,7 @@ func (c *Ctx) assert(kind, label string, goal Term, src string, serves []string)
 	if !c.inHint {
 		c.applyHints()
 	}
-	if len(goal.Conj) > 1 {
+	if len(goal.Conj) > 1 || len(goal.Imp) == 2 {
 		// one obligation per conjunct: smaller queries, sharper diagnosis
 		flat := flattenConj(goal)
 		if len(flat) > 1 {
@@ -573,6 +573,14 @@ func (c *Ctx) hypsWithDefs() []Term {
 }
 
 func flattenConj(t Term) []Term {
+	if len(t.Imp) == 2 && (len(t.Imp[1].Conj) > 1 || len(t.Imp[1].Imp) == 2) {
+		// a ==> (b && c)  splits into  a ==> b,  a ==> c
+		var out []Term
+		for _, x := range flattenConj(t.Imp[1]) {
+			out = append(out, Implies(t.Imp[0], x))
+		}
+		return out
+	}
 	if len(t.Conj) == 0 {
 		return []Term{t}
 	}
@@ -852,7 +860,11 @@ func (c *Ctx) freshVal(prefix string, t types.Type, ints, floats string) *Val {
 }
 
 // assumeWF adds language-level well-formedness facts about a value.
-func (c *Ctx) assumeWF(v *Val, ints string) {
+func (c *Ctx) assumeWF(v *Val, ints string) { c.assumeWFTop(v, ints, c.St.Top) }
+
+// assumeWFTop: well-formedness with respect to a given allocation frontier (values read from an earlier heap
+// were allocated before that heap's frontier).
+func (c *Ctx) assumeWFTop(v *Val, ints string, top Term) {
 	if v == nil {
 		return
 	}
@@ -868,12 +880,12 @@ func (c *Ctx) assumeWF(v *Val, ints string) {
 		if v.Len.C != nil && v.Cap.C != nil && v.Arr.C != nil {
 			return
 		}
-		key := "wf:" + v.Arr.S + v.Off.S + v.Len.S + v.Cap.S
+		key := "wf:" + v.Arr.S + v.Off.S + v.Len.S + v.Cap.S + top.S
 		if c.wfSeen[key] {
 			return
 		}
 		c.wfSeen[key] = true
-		c.assume(And(Le(IntLit(0), v.Off), Le(IntLit(0), v.Len), Le(v.Len, v.Cap), Le(IntLit(0), v.Arr), Lt(v.Arr, c.St.Top),
+		c.assume(And(Le(IntLit(0), v.Off), Le(IntLit(0), v.Len), Le(v.Len, v.Cap), Le(IntLit(0), v.Arr), Lt(v.Arr, top),
 			Le(Add(v.Off, v.Cap), IntLitBig(maxI64)),
 			Implies(Eq(v.Arr, IntLit(0)), And(Eq(v.Cap, IntLit(0)), Eq(v.Off, IntLit(0))))))
 	case VScalar:
@@ -886,11 +898,11 @@ func (c *Ctx) assumeWF(v *Val, ints string) {
 				add(intRangeOf(v.Typ).InRange(v.T))
 			}
 		case TRef, TCell:
-			add(And(Le(IntLit(0), v.T), Lt(v.T, c.St.Top)))
+			add(And(Le(IntLit(0), v.T), Lt(v.T, top)))
 		}
 	case VStruct:
 		for _, f := range v.F {
-			c.assumeWF(f, ints)
+			c.assumeWFTop(f, ints, top)
 		}
 	}
 }
@@ -917,6 +929,8 @@ func (c *Ctx) loadField(heap map[string]Term, ref Term, owner *types.Named, f *t
 	v := c.load(heap, fieldBase(owner, f.Name()), []Term{ref}, f.Type(), ints, floats)
 	if heap == nil {
 		c.assumeWF(v, ints)
+	} else if c.Fr != nil && c.Fr.OldTop.S != "" {
+		c.assumeWFTop(v, ints, c.Fr.OldTop)
 	}
 	return v
 }
